@@ -184,6 +184,9 @@ def terms(draw, max_q=5, zero=True, kinds=("int", "float", "complex"), letters="
     if big_index and qs and draw(st.integers(0, 4)) == 0:
         qs[0] = draw(st.integers(10, 1200))
     ops = [[q, draw(st.sampled_from(list(letters)))] for q in sorted(set(qs))]
+    if len(ops) >= 2 and draw(st.integers(0, 3)) == 0:
+        # the factors of a term may be written (and are then stored) in any order, e.g. Z2*Z0 - as products of terms are
+        ops = list(draw(st.permutations(ops)))
     return {"ops": ops, "c": draw(coefs(zero, kinds))}
 
 
